@@ -67,6 +67,27 @@ def sh(cmd, cwd=None, timeout=600, env=None, stdin=None, check=False):
     return p.returncode, p.stdout, p.stderr
 
 
+def run_lines(cmd, ops, timeout=1200, shell=False):
+    """feed op lines to a line-per-op executor; when it dies, record a CRASH for the op in flight and restart after it"""
+    out, crashes, start = [], 0, 0
+    while start < len(ops):
+        inp = "\n".join(ops[start:]) + "\n"
+        rc, so, se = sh(cmd, stdin=inp, timeout=timeout)
+        got = so.split("\n")[:-1] if so else []
+        got = got[: len(ops) - start]
+        out += got
+        start += len(got)
+        if start < len(ops):
+            out.append("CRASH rc=%s %s" % (rc, se[:200].replace("\n", " | ")))
+            start += 1
+            crashes += 1
+            if crashes > 20:
+                out += ["CRASH (not run)"] * (len(ops) - start)
+                break
+    return out
+
+
+
 class Lock:
     def __init__(self, name):
         self.path = os.path.join(CACHE, name + ".lock")
